@@ -10,7 +10,10 @@ RULE = (
     "events on both sides; run B is the same scenario with the same handlers raising at the invocation indices selected by the fractions. "
     "Oracle: the byte-exact wire transcripts of both directions and both sides' outcomes are identical in A and B, and no pynetdicom thread dies "
     "in B that did not die in A; intervention-handler exceptions never surface as a thread exception. "
-    "Non-trivial = >=3 raising invocations on >=2 event kinds."
+    "Non-trivial = >=3 raising invocations on >=2 event kinds. Second sub-check ('intervention', thread-free acceptor association): a C-ECHO / C-STORE / "
+    "C-FIND / DIMSE-N request is served by an intervention handler that behaves well up to a generated point (before the first result, instead "
+    "of a result, after 0..3 Pending results) and then raises one of 10 exception classes (incl. one with empty args); oracle: nothing escapes "
+    "Association._serve_request, pynetdicom does not abort, and the last response carries the documented failure status for a handler exception."
 )
 ASSUMPTIONS = [
     "E4 substitution table; the fifo schedule makes both runs deterministic so the differential is exact (virtual time, no real clock)",
@@ -18,6 +21,8 @@ ASSUMPTIONS = [
     "therefore bound first; this is not part of the asserted property",
 ]
 SHARDS = {"quick": 1, "thorough": 16}
+# 'exception' means a subclass of Exception: process-control exceptions (SystemExit, KeyboardInterrupt, GeneratorExit) are not generated -
+# whether a library should turn those into a DIMSE failure response is a design decision, not part of the statement
 
 
 def _transcript(out):
@@ -79,6 +84,40 @@ def _seg(t, i):
 CHECKS = {"diff": check_diff}
 
 
+# ------------------------------------------------------------------------------ second sentence: intervention handlers (E3)
+
+def check_intervention(ctx, case):
+    """A service request is served (thread-free acceptor association, engines/scp_grammar.py) by an intervention handler that behaves well
+    up to a generated point and then raises an exception (any of the grammar's exception classes). Oracle: nothing escapes
+    Association._serve_request, pynetdicom does not abort the association itself, and the last response carries the failure status the
+    documentation names for a handler exception (C-STORE 0xC211, C-FIND 0xC311, DIMSE-N 0x0110; C-ECHO: the documented default response)."""
+    from engines import scp_grammar as G
+    from refs import handler_status_ref as HR
+    from vlib import sig
+
+    rtype, _uid, family = G.SERVICES[case["svc"]]
+    obs = G.run_scp_case(case)
+    msgs = obs.responses()
+    where = "before-first-result" if case.get("pre") else ("after-results" if case.get("items") and case["items"][-1]["k"] != "raise" else "instead-of-result")
+    ctx.note(case, nontrivial=True, classes=["intervention", rtype, f"family:{family}", f"exc:{case.get('pre') or case.get('end') or case['items'][-1].get('exc')}", where])
+    txt = f"svc={case['svc']} handler raises {where}; responses {[None if m.status is None else hex(m.status) for m in msgs]} local_abort={obs.aborted_locally}"
+    if obs.escaped is not None:
+        ctx.fail("intervention-exception-escapes", f"{rtype}:{sig.exc_key(obs.escaped)}", f"_serve_request raised: {sig.exc_text(obs.escaped)}\n{txt}")
+        return
+    if obs.aborted_locally:
+        ctx.fail("intervention-exception-aborts", f"{rtype}:{where}", f"pynetdicom aborted the association instead of sending the documented failure response\n{txt}")
+        return
+    if not msgs or msgs[-1].status is None:
+        ctx.fail("intervention-no-response", f"{rtype}:{where}", f"no response was sent for the request\n{txt}")
+        return
+    want = HR.DOCUMENTED.get(rtype, {}).get("exception")
+    if want is not None and msgs[-1].status != want:
+        ctx.fail("intervention-status", f"{rtype}:{where}", f"last response has status 0x{msgs[-1].status:04X}, documented for a handler exception: 0x{want:04X}\n{txt}")
+
+
+CHECKS["intervention"] = check_intervention
+
+
 def run(ctx):
     from hypothesis import strategies as st
 
@@ -92,3 +131,31 @@ def run(ctx):
         return {"scenario": sc, "raise_acc": draw(fr), "raise_req": draw(fr), "shapes": draw(st.lists(st.integers(0, 7), min_size=1, max_size=6))}
 
     ctx.hyp("diff", case(), 60 if ctx.quick else 500)
+
+    # intervention handlers: well-formed behaviour up to the exception
+    from engines import scp_grammar as G
+
+    exc = st.sampled_from(sorted(G.EXC))
+    ok_ds = st.just({"t": "ds", "elems": [["PatientID", "P1"]]})
+
+    @st.composite
+    def icase(draw):
+        svc = draw(st.sampled_from(sorted(k for k, v in G.SERVICES.items() if v[0] not in ("C-GET", "C-MOVE"))))
+        rtype = G.SERVICES[svc][0]
+        c = {"svc": svc, "ts": draw(st.sampled_from(sorted(G.TS))), "msg_id": draw(st.integers(0, 0xFFFF)), "cx": 2 * draw(st.integers(0, 127)) + 1}
+        if rtype == "C-FIND":
+            n = 0 if G.SERVICES[svc][2] == "relevant-patient" else draw(st.integers(0, 3))
+            pend = [{"k": "pair", "st": {"t": "int", "v": 0xFF00}, "ds": draw(ok_ds)} for _ in range(n)]
+            how = draw(st.integers(0, 2))
+            c.update(mode="gen", items=pend, pre=None, end="return")
+            if how == 0 or not pend:
+                c.update(pre=draw(exc), items=[])
+            elif how == 1:
+                c["items"] = pend + [{"k": "raise", "exc": draw(exc)}]
+            else:
+                c["end"] = draw(exc)
+        else:
+            c.update(items=[{"k": "raise", "exc": draw(exc)}], pre=draw(st.one_of(st.none(), exc)), with_instance=True)
+        return c
+
+    ctx.hyp("intervention", icase(), 600 if ctx.quick else 4000)
